@@ -65,13 +65,15 @@ type Monitors struct {
 	// deliveries a seek re-opened although their retention had ended
 	revivedExpired map[uuid.UUID]bool
 	// the delivery delay that was injected on the subscription when the delivery was enqueued
-	delayAt  map[uuid.UUID]int64
-	reopened map[uuid.UUID]bool     // deliveries re-opened by a seek at some point
-	handouts map[uuid.UUID]int      // delivery id -> number of times handed out (since last re-open)
-	snaps    map[string]*snapRecord // by snapshot name
-	lastPull map[uuid.UUID]int64    // subscription id -> last pull / creation / ttl update
-	dlDone   map[uuid.UUID]bool     // deliveries already dead-lettered
-	Counts   map[string]int
+	delayAt map[uuid.UUID]int64
+	// maintenance jobs that failed: the other jobs that completed a round with minimum age 0 since
+	jobRounds map[string]map[string]bool
+	reopened  map[uuid.UUID]bool     // deliveries re-opened by a seek at some point
+	handouts  map[uuid.UUID]int      // delivery id -> number of times handed out (since last re-open)
+	snaps     map[string]*snapRecord // by snapshot name
+	lastPull  map[uuid.UUID]int64    // subscription id -> last pull / creation / ttl update
+	dlDone    map[uuid.UUID]bool     // deliveries already dead-lettered
+	Counts    map[string]int
 	// ordered deliveries whose predecessor link, when they were published, was not the newest
 	// same-key delivery of the subscription still inside its retention
 	linkMissing  map[uuid.UUID]bool
@@ -88,7 +90,7 @@ type LinkMis struct {
 
 func NewMonitors() *Monitors {
 	return &Monitors{pubs: map[uuid.UUID]*pubRecord{}, leases: map[uuid.UUID]*leaseRecord{}, acked: map[uuid.UUID]int64{},
-		policy: map[uuid.UUID][2]int64{}, reqDL: map[uuid.UUID]dlReq{}, revivedExpired: map[uuid.UUID]bool{}, delayAt: map[uuid.UUID]int64{}, lastSeek: map[uuid.UUID]int64{}, reopened: map[uuid.UUID]bool{}, handouts: map[uuid.UUID]int{}, snaps: map[string]*snapRecord{},
+		policy: map[uuid.UUID][2]int64{}, reqDL: map[uuid.UUID]dlReq{}, revivedExpired: map[uuid.UUID]bool{}, delayAt: map[uuid.UUID]int64{}, jobRounds: map[string]map[string]bool{}, lastSeek: map[uuid.UUID]int64{}, reopened: map[uuid.UUID]bool{}, handouts: map[uuid.UUID]int{}, snaps: map[string]*snapRecord{},
 		lastPull: map[uuid.UUID]int64{}, dlDone: map[uuid.UUID]bool{}, Counts: map[string]int{}, linkMissing: map[uuid.UUID]bool{}, seekAcked: map[uuid.UUID]bool{}}
 }
 
@@ -1078,9 +1080,21 @@ func (m *Monitors) checkDeadLetters(r *Result, path string) {
 // checkPrune: maintenance may only remove dead rows.
 func (m *Monitors) checkPrune(r *Result) {
 	now := r.T
+	// convergence: a job may fail in a round (its rows are still referenced by rows another job has to
+	// reclaim first: NO ACTION foreign keys); it is stuck when it fails again although every other
+	// job has had a successful round with minimum age 0 since
 	if strings.HasPrefix(r.Resp, "E:") {
-		// a maintenance job has no input to reject: a failing round reclaims nothing, now or in any later round
-		m.fire("C15", "job-failed", "maintenance job %s failed (%s %v): the rows it is responsible for are never reclaimed", r.Op.K, r.Resp, r.Err)
+		if seen, failedBefore := m.jobRounds[r.Op.K]; failedBefore && len(seen) >= 6 {
+			m.fire("C15", "job-stuck", "maintenance job %s fails again (%s %v) although each of the other jobs has completed a round with minimum age 0 since its last failure: the rows it is responsible for are never reclaimed", r.Op.K, r.Resp, r.Err)
+		}
+		m.jobRounds[r.Op.K] = map[string]bool{}
+	} else if r.Op.D == 0 {
+		for failed, seen := range m.jobRounds {
+			if failed != r.Op.K {
+				seen[r.Op.K] = true
+			}
+		}
+		delete(m.jobRounds, r.Op.K)
 	}
 	for id, b := range r.Before {
 		a := r.After[id]
